@@ -2159,11 +2159,12 @@ class NamespaceSet(MutableSet[_NSO], Generic[_NSO]):
                         if not backend_other.get(self._get_attribute(item, attr_name, case_sensitive)):
                             # referable does not exist in the other NamespaceSet
                             objects_to_remove.append(item)
+        # remove first: the objects that go must not take part in the constraint checks of those that come
+        for object_to_remove in objects_to_remove:
+            self.remove(object_to_remove)  # type: ignore
         for object_to_add in objects_to_add:
             other.remove(object_to_add)
             self.add(object_to_add)  # type: ignore
-        for object_to_remove in objects_to_remove:
-            self.remove(object_to_remove)  # type: ignore
 
 
 class OrderedNamespaceSet(NamespaceSet[_NSO], MutableSequence[_NSO], Generic[_NSO]):
